@@ -125,6 +125,76 @@ func (p *Program) runScan(sc *Scan) *UnitResult {
 		}
 		return res
 	}
+	if sc.Kind == "assertorder" {
+		// assertorder <function>: A B - in <function>, every comma-ok type test of a value against B (a case of a type
+		// switch or a v, ok := x.(B)) is reached only after the same value failed the test against A: values that are
+		// both A and B take the A branch. At least one such pair must exist.
+		if len(sc.Allowed) != 2 {
+			o.Status = "sat"
+			o.Output = "assertorder needs two type names"
+			return res
+		}
+		first, second := sc.Allowed[0], sc.Allowed[1]
+		qual := func(pk *types.Package) string { return pk.Name() }
+		pairs := 0
+		for key, fn := range p.fnByKey {
+			if fn.Pkg == nil || fn.Pkg.Pkg.Path() != sc.Pkg {
+				continue
+			}
+			if strings.TrimPrefix(shortKey(key), fn.Pkg.Pkg.Name()+".") != sc.Target {
+				continue
+			}
+			found = true
+			for _, b := range fn.Blocks {
+				for _, in := range b.Instrs {
+					ta, ok := in.(*ssa.TypeAssert)
+					if !ok || !ta.CommaOk || types.TypeString(ta.AssertedType, qual) != second {
+						continue
+					}
+					// look for the failed test against `first` on the same value that dominates this one
+					okPair := false
+					for _, b2 := range fn.Blocks {
+						for _, in2 := range b2.Instrs {
+							t1, ok := in2.(*ssa.TypeAssert)
+							if !ok || !t1.CommaOk || t1.X != ta.X || types.TypeString(t1.AssertedType, qual) != first {
+								continue
+							}
+							iff, ok := b2.Instrs[len(b2.Instrs)-1].(*ssa.If)
+							if !ok {
+								continue
+							}
+							ex, ok := iff.Cond.(*ssa.Extract)
+							if !ok || ex.Tuple != t1 || ex.Index != 1 {
+								continue
+							}
+							els := b2.Succs[1]
+							if len(els.Preds) == 1 && els.Dominates(b) {
+								okPair = true
+							}
+						}
+					}
+					if okPair {
+						pairs++
+					} else {
+						offenders = append(offenders, fmt.Sprintf("%s: test against %s at %s is not preceded by a failed test against %s", sc.Target, second, p.prog.Fset.Position(ta.Pos()), first))
+					}
+				}
+			}
+		}
+		if found && pairs > 0 && len(offenders) == 0 {
+			o.Status = "unsat"
+			o.Output = fmt.Sprintf("%d type test(s) against %s in %s, each reached only after the value failed the test against %s", pairs, second, sc.Target, first)
+		} else {
+			o.Status = "sat"
+			if !found {
+				offenders = append(offenders, "function "+sc.Target+" not found")
+			} else if pairs == 0 && len(offenders) == 0 {
+				offenders = append(offenders, "no type test against "+second+" after a failed test against "+first+" in "+sc.Target)
+			}
+			o.Output = strings.Join(offenders, "; ")
+		}
+		return res
+	}
 	if sc.Kind == "extcalls" {
 		return p.scanExtCalls(sc, o, res, allowed)
 	}
